@@ -9,6 +9,7 @@ Order: corpus/journal/*.json, a systematic enumerator of the boundary cases, the
 Interception and private attributes: see journal_lib."""
 import os
 import re
+import shutil
 import time
 
 from harness.corr import journal_lib as lib
@@ -205,6 +206,7 @@ def run(ctx):
             crng = ctx.rng("journal_bytes/big/%d" % i)
             src = lib.RandomSource(crng, crng.choice([3, 5, 8]), 1 << 21)
             src.profile = "growth"
+            src = lib.ChainSource([["add", 1, 1, {"n": crng.choice([100, 300, 600, 1024]) * 1024 + crng.randrange(-2, 3), "s": i}]], src)
             r = lib.run_case(jm, model, os.path.join(tmp, "b%d" % i), src, cov=cov, rng=crng)
             finish("big-%d" % i, r, "big")
         cov["random_planned"] = n_rand
@@ -262,8 +264,12 @@ def search(ctx, unproved):
 def replay(ctx, violation):
     jm = lib.load_journal(ctx.repo)
     rp = violation.get("replay") or {}
-    path = os.path.join(ctx.tmpdir(), "replay")
-    r = lib.monitor_ops(jm, path, rp.get("ops", []), rp.get("factory", "FileJournal"), rng=ctx.rng("journal_bytes/replay"))
+    tmp = ctx.tmpdir()
+    try:
+        r = lib.monitor_ops(jm, os.path.join(tmp, "replay"), rp.get("ops", []), rp.get("factory", "FileJournal"),
+                            rng=ctx.rng("journal_bytes/replay"))
+    finally:
+        shutil.rmtree(tmp, ignore_errors=True)      # ./check --replay does not clean up the ctx
     v = r["violation"]
     return {"violated": v is not None, "signature": v and v["signature"], "what": v and v["what"],
             "ops_executed": len(r["ops"]), "tree": ctx.repo}
